@@ -30,6 +30,7 @@ VERIF_MSG = [
     (r'^decreases not satisfied', 'decreases'),
     (r'^unreachable.*reached|^reached unreachable', 'unreachable'),
     (r'^failed to apply|^cannot show', 'assert'),
+    (r'^loop invariant not satisfied', 'inv-end'),
     (r'^loop invariant .* not', 'inv-end'),
     (r'^recursive function must have a decreases clause|^loop must have a decreases clause', 'decreases'),
 ]
